@@ -571,7 +571,10 @@ func brun(args []string) error {
 		}
 	}
 	casesASGiB = 24
-	casesDeadline = "60s"                                // multi-GiB buffers requested and zeroed: 5-15 s of CPU per input when the machine is busy
+	casesDeadline = "60s" // multi-GiB buffers requested and zeroed: 5-15 s of CPU per input when the machine is busy
+	// ... and, with every length field at 2^32-1 in the thorough tier (8 GiB requests) next to model checkers holding a
+	// quarter of the memory, more than 120 s were measured once for an input that does end: ten minutes for the run alone
+	confirmDeadline = "600s"
 	outcomes := runCases(casesPath, len(kinds), *dir, 3) // hostile lengths make the converter request multi-GiB buffers: few workers at a time
 	tr := wl.NewTrace()
 	tr.Add(wl.Ev{"ev": "Run", "id": "bagcases", "cfg": map[string]any{"external": "cases"}, "lib": wl.Blob(""), "csizes": []any{}})
